@@ -49,8 +49,8 @@ __wrap_timerfd_settime(int fd, int flags, const struct itimerspec *n, struct iti
 enum { H_ARRIVE = 1, H_CLOSE, H_FIRE, H_ENABLE, H_DRAIN, H_RESTART, H_RESET };
 typedef struct hstep_s { uint8_t op, k; } hstep_t;
 #define MAXH 12
-enum { POL_CONTINUE = 0, POL_STOP_AT_1, POL_STOP_AT_2, POL_DESTROY_AT_1, POL_DESTROY_AT_2, POL_NONE_AT_1_THEN_ENABLE, POL_NONE_AT_2_THEN_ENABLE, POL_N };
-static const char *polname[] = { "continue", "stop@1", "stop@2", "destroy@1", "destroy@2", "none@1+enable", "none@2+enable" };
+enum { POL_CONTINUE = 0, POL_STOP_AT_1, POL_STOP_AT_2, POL_DESTROY_AT_1, POL_DESTROY_AT_2, POL_NONE_AT_1_THEN_ENABLE, POL_NONE_AT_2_THEN_ENABLE, POL_START_PERSISTENT_AT_1, POL_N };
+static const char *polname[] = { "continue", "stop@1", "stop@2", "destroy@1", "destroy@2", "none@1+enable", "none@2+enable", "start-again-persistent@1" };
 #define TIMEOUT_MS 3600000ull
 
 typedef struct cfg_s {
@@ -204,6 +204,15 @@ task_cb(tp_task_p tptask, int error, io_buf_p b, uint32_t eof, size_t transfered
 		break;
 	case POL_DESTROY_AT_1: case POL_DESTROY_AT_2:
 		if (ncb == (POL_DESTROY_AT_1 == C.pol ? 1 : 2)) { tp_task_destroy(task); task_dead = 1; task_destroyed = 1; return (TP_TASK_CB_NONE); }
+		break;
+	case POL_START_PERSISTENT_AT_1:	/* a dispatch task whose first callback starts the task again for the rest of the window,
+					 * persistent this time, without stopping it first, and does not ask to continue */
+		if (1 == ncb && 0 != (C.evflags & TP_F_DISPATCH)) {
+			run_base = (int)buf.offset; reported = 0;
+			if (0 != tp_task_start(task, C.send ? TP_EV_WRITE : TP_EV_READ, 0, C.timeout ? TIMEOUT_MS : 0, 0, &buf, task_cb))
+				cfail("start-refused", "tp_task_start from the callback failed");
+			return (TP_TASK_CB_NONE);
+		}
 		break;
 	case POL_NONE_AT_1_THEN_ENABLE:
 	case POL_NONE_AT_2_THEN_ENABLE:
@@ -502,6 +511,8 @@ main(int argc, char **argv) {
 		if ((POL_NONE_AT_1_THEN_ENABLE == C.pol || POL_NONE_AT_2_THEN_ENABLE == C.pol) && TP_F_DISPATCH != C.evflags)
 			continue;
 		if (TP_F_ONESHOT == C.evflags && POL_CONTINUE != C.pol)
+			continue;
+		if (POL_START_PERSISTENT_AT_1 == C.pol && (TP_F_DISPATCH != C.evflags || C.send))
 			continue;
 		if (!vh_thorough && (w >= 4 || (C.pol == POL_STOP_AT_2) || (C.pol == POL_DESTROY_AT_2)) && C.timeout)
 			continue;	/* quick: thin out the product, every option value still occurs */
